@@ -131,6 +131,29 @@ public:
     }
     bool less(int a, int b) const override { return m.key_comp()(a, b); }
     void cmp_state(unsigned& shift, bool& desc) const override { CT::state(m.key_comp(), shift, desc); }
+    // API audit additions
+    bool value_less(const KD& a, const KD& b) const override { return m.value_comp()(mk(a), mk(b)); }
+    bool subscript(int k, bool write, int d, int& before, int& after) override {
+        if constexpr (K == MAP) {
+            int& r = m[k];
+            before = r;
+            if (write) r = d;
+            after = m[k];
+            return true;
+        }
+        else {
+            (void)k, (void)write, (void)d, (void)before, (void)after;
+            return false;
+        }
+    }
+    void write_rank(size_t r, int d) override {
+        if constexpr (is_map) {
+            iterator it = m.begin();
+            std::advance(it, r);
+            it->second = d;
+        }
+        else (void)r, (void)d;
+    }
 };
 
 template <Kind K>
